@@ -1,12 +1,15 @@
 """C19 — all filesystem backends resolve names alike; chains honour priority."""
 from __future__ import annotations
 
+import contextlib
 import itertools
 import os
 import random
 import shutil
+import signal
 import sys
 import tempfile
+import threading
 import time
 import zipfile
 
@@ -14,7 +17,7 @@ from harness.common import Ck, coq_list, coq_str, coq_bytes, parse_coq_N_list
 from translate import c19_walk
 
 MANIFEST = dict(
-    technique='Rocq proof (backends as translated operation lists refining one folded-name map for every query string; walk_folder exactness for the sound folder forms; RawFileSystem lookup/walk from its translated operations; chain first-match / priority / prefix / de-duplication laws; every public lookup form of a chain - [], in, _get_file, _file_exists, open_bin, open_str, the bytes read, walk_folder, iter - equal to one specification function for members of any backend kind; the VPK content expression and the container reader FileInfo.read() as translated expressions that return the stored bytes in every placement) + fail-closed ast translator working on a canonical form of filesys.py / vpk.py (semantic normalisation, 15 rewrite rules, the rewritten module is executed and compared with the real one on every run) + instance obligations and two instance theorems at the generated configuration + vm_compute correspondence over the four real backends and chains + differential oracle',
+    technique='Rocq proof (backends as translated operation lists refining one folded-name map for every query string; walk_folder exactness for the sound folder forms; RawFileSystem lookup/walk from its translated operations; chain first-match / priority / prefix / de-duplication laws; every public lookup form of a chain - [], in, _get_file, _file_exists, open_bin, open_str, the bytes read, walk_folder, iter - equal to one specification function for members of any backend kind; the VPK content expression and the container reader FileInfo.read() as translated expressions that return the stored bytes in every placement) + fail-closed ast translator working on a canonical form of filesys.py / vpk.py (semantic normalisation, 15 rewrite rules, the rewritten module is executed and compared with the real one on every run) ; round 4: the property as one statement (c19_property: source_ok cfg -> property_holds cfg, instantiated at the generated configuration on every run), add_sys over whole histories of calls with its early-return guard translated, the names RawFileSystem.walk_folder lists as a translated shape, the walk of chains with directory members from a member interface, subfolder prefixes and folder arguments in any spelling without "..") + instance obligations and two groups of instance theorems at the generated configuration + vm_compute correspondence over the four real backends and chains + differential oracle (every call into the implementation under an alarm: a hang or an unexpected exception is a violation with its input)',
     text='Theorems in Props/C19.v, generic over a backend record of normalisation operations regenerated from filesys.py on every run. '
          'Lookup: backends whose query functions convert the slashes, normalise the path and fold the case (today\'s source, obligation *_keys_normalise_every_spelling) agree with each other and with the specification map (folded name -> last stored file) on _get_file, _file_exists and open_bin for EVERY query string; empty and "." segments, either slash and letter case are proved insignificant (c19_normpath_noise, c19_lookup_noise_insensitive); any other recognised form agrees on queries normpath leaves alone (c19_lookup_agree); the pinned forms are refuted on "./x" and ".\\x". '
          'Bytes: what VPKFileSystem.open_bin/open_str read is a translated expression over the FileInfo, and FileInfo.read() itself is translated from vpk.py with the slice displacements found in the source; expressions recognised as whole return the stored bytes for every split between preload and rest, for the directory tail, a numbered archive and a single-file VPK, wherever the rest lies (c19_vpk_content_whole_all_placements, c19_vpk_open_same_bytes, c19_vpk_reader_whole_all_placements, c19_vpk_open_through_reader); the preload shortcut and the one-byte-short slice are refuted. '
@@ -22,11 +25,12 @@ MANIFEST = dict(
          'walk_folder with a sound form (dictionary source, folded key compared with a folder-boundary prefix) lists exactly the surviving files inside the folder (empty folder = all), every listed name looks up to that file, no name twice; string-prefix, root-is-dot, case-sensitive, container-prefilter (VPK.fileinfos) and container-iteration forms are refuted by kernel-computed witnesses. '
          'FileSystemChain: c19_chain_every_form_spec - for every query string and every list of members of whatever backend kind (no premise on the prefixes) chain[q] / _get_file(q), the resolution of open_bin / open_str(q), q in chain / _file_exists(q) in every recognised sound shape and the bytes read from the handle are the specification function chain_spec (first member, in priority order, whose files contain subfolder/name up to case, slash kind and redundant segments); hence the backend kind of a member is unobservable through a chain (c19_chain_backend_kind_unobservable); chains that also contain directory backends answer like chain_spec on queries that are exact for those members (c19_chain_with_directory_members_spec, premise shown necessary); a _file_exists loop that re-assigns the joined name is refuted (c19_chain_exists_carried_name_refuted). Priority insertion first / plain insertion last (both add_sys branches translated); the de-duplicated walk lists each folded name once keeping the first member\'s entry, the dict-overwrite shape is refuted. '
          'Composition (c19_chain_walk_lookup_closed, c19_chain_walk_complete, c19_chain_walk_every_entry_spec, c19_chain_walk_lists_spec, c19_chain_iter_lists_spec): for members with empty or clean prefixes and an empty or clean folder, every (path, File) the de-duplicated walk lists is the specification\'s answer for path (it looks up in every form and reads the listed bytes), and every clean name the specification serves inside the folder is listed with that File; iter(chain) lists every clean name served. All of these are re-instantiated at the generated configuration on every run. '
+         'Round 4 - c19_property: for every configuration (three backend records, VPK content expressions and reader, the directory backend\'s operations and listed-name shape, add_sys guard and branch actions, _file_exists mode, de-duplication mode / key / relative-name mode) that passes the named recognisers, the three sentences of the property hold (backends_agree, walks_exact, chains_honour_priority); today\'s generated configuration passes (obligation property_hypotheses_hold_for_the_generated_configuration, instance theorem today_c19_property). add_sys: c19_chain_history_order / _mounts_all / _spec - after ANY sequence of add_sys calls (method always inserts, first for priority, last otherwise) the chain is the priority members latest first then the others in order, and every lookup form is the specification over that order; a guard `if (sys, prefix) in self.systems: return` is translated (chain_add_guard) and refuted (second archive under the same label dropped, priority re-add ignored). RawFileSystem.walk_folder: how the listed name is computed is translated (raw_walk_relmode); relpath of the joined file name lists stored names (c19_raw_walk_lists_stored_names), relpath of the directory joined with the file name lists root files as "./x" (refuted, also inside a chain). Walk of chains: c19_chain_walk_from_member_interface proves the composition from what the chain needs from a member (lists_sound / lists_complete); folding backends and the directory backend (on folders exact for it - premise shown necessary) satisfy it, so c19_chain_walk_with_directory_members covers chains that contain RawFileSystem; c19_chain_walk_any_spelling / _any_member / _any_member_any_spelling extend it to prefixes and folders spelt with redundant separators and "." segments in either slash, for folding and directory members (spells; c19_spellings_one_normal_form). c19_case_duplicate_winner_needs_order: no reader of a container that is the same for both insertion orders serves "the file stored last" - why the known finding cannot be repaired inside VPKFileSystem. '
          'The generated model is compared with the real Virtual/Zip/VPK/Raw backends (lookups in all spellings incl. open_str, VPKs written in 7 data placements, walks of normalised and un-normalised folders) and with chains ([], in, open_bin, open_str, walk_folder, walk_folder_repeat); a reference oracle written from the property checks every public form on the four real backends and on chains of up to 4 members in all orderings, file contents for 5 VPK placement classes with sizes around the preload limits (1024, 65535), plus non-ASCII case folding for the in-memory and zip backends.',
-    note='Trusted: Coq kernel + vm_compute, translate/c19_walk.py (its canonicalisation rewrites are meant to be equivalences of Python programs; on every run the rewritten filesys.py is compiled, executed and compared with the real classes on every lookup form, walks and chains - obligations translate:canonical-form-runs / -is-equivalent), zipfile, the VPK writer of vpk.py (where the bytes are put; the reader is translated; VPK.fileinfos only through a shape check), which numbered archive file is opened (C13), the OS directory semantics (RawFileSystem: exact names via os.path.isfile/open/os.walk after abspath; RootEscapeError belongs to C18). Model restrictions: ASCII case folding only in the model (non-ASCII casefold is searched on the in-memory and zip backends; VPK names are ASCII); stored names are clean relative "/" paths; ".." segments are modelled (full posixpath.normpath) and compared by correspondence but the general noise theorem covers only empty and "." segments; the walk/composition theorems assume empty or clean prefixes and folders (other spellings: correspondence and oracle) - the chain lookup theorem has no such premise; absolute paths are outside the statement; reading a slice of the wrong home is modelled as returning nothing (such readers are never recognised as whole). Which of two stored names differing only in case wins depends on container order (c19_lookup_order_matters_for_case_duplicates); VPK regroups files, see known finding case-duplicate-winner-vpk-differs. Observations (not violations): RawFileSystem.open_bin of a directory raises IsADirectoryError where the others raise FileNotFoundError; File.path of a lookup differs per backend.',
+    note='Trusted: Coq kernel + vm_compute, translate/c19_walk.py (its canonicalisation rewrites are meant to be equivalences of Python programs; on every run the rewritten filesys.py is compiled, executed and compared with the real classes on every lookup form, walks and chains - obligations translate:canonical-form-runs / -is-equivalent), zipfile, the VPK writer of vpk.py (where the bytes are put; the reader is translated; VPK.fileinfos only through a shape check), which numbered archive file is opened (C13), the OS directory semantics (RawFileSystem: exact names via os.path.isfile/open/os.walk after abspath; RootEscapeError belongs to C18). Model restrictions: ASCII case folding only in the model (non-ASCII casefold is searched on the in-memory and zip backends; VPK names are ASCII); stored names are clean relative "/" paths; ".." segments are modelled (full posixpath.normpath) and compared by correspondence but the general noise theorem covers only empty and "." segments; the walk/composition theorems cover prefixes and folders in any spelling of an empty or clean path without ".." (redundant separators, "." segments, either slash; ".." in a prefix or folder: correspondence and oracle), directory members need a cleanly spelt folder that is exact for them - the chain lookup theorem has no premise on prefixes; absolute paths are outside the statement; reading a slice of the wrong home is modelled as returning nothing (such readers are never recognised as whole). Which of two stored names differing only in case wins depends on container order (c19_lookup_order_matters_for_case_duplicates); VPK regroups files, see known finding case-duplicate-winner-vpk-differs. Observations (not violations): RawFileSystem.open_bin of a directory raises IsADirectoryError where the others raise FileNotFoundError; File.path of a lookup differs per backend.',
 )
 
-IMPORTS = ['Coq.Lists.List', 'Coq.NArith.NArith', 'Coq.Bool.Bool', 'SV.SM.FsChain', 'SV.SM.FsChainForms', 'SV.SM.FsChainRead', 'SV.Gen.FsWalk_gen']
+IMPORTS = ['Coq.Lists.List', 'Coq.NArith.NArith', 'Coq.Bool.Bool', 'SV.SM.FsChain', 'SV.SM.FsChainForms', 'SV.SM.FsChainRead', 'SV.SM.FsChainAdd', 'SV.SM.FsChainNoise', 'SV.SM.FsChainProperty', 'SV.Gen.FsWalk_gen']
 PRE = '''Import ListNotations. Open Scope N_scope.
 Fixpoint l1_eqb (a b : list N) : bool := match a, b with [], [] => true | x :: a', y :: b' => (x =? y) && l1_eqb a' b' | _, _ => false end.
 Fixpoint l2_eqb (a b : list (list N)) : bool := match a, b with [], [] => true | x :: a', y :: b' => l1_eqb x y && l2_eqb a' b' | _, _ => false end.
@@ -47,15 +51,18 @@ Definition raw_obs (fs : list file) (qs folders : list str) : list (list (list N
    map (fun q => match raw_lookup_ops raw_exists_ops fs q with Some _ => [1] | None => [0] end) qs;
    map (fun q => code (raw_lookup_ops raw_open_ops fs q)) qs;
    map (fun q => code (raw_lookup_ops raw_open_ops fs q)) qs]
-  ++ map (fun f => map fst (raw_walk raw_walk_ops fs f)) folders.
+  ++ map (fun f => map fst (raw_walk_rel raw_walk_relmode raw_walk_ops fs f)) folders.
+(* add_sys over the history of calls, as translated: both branch actions and the guard (a membership test compares the
+   file systems - same object or same kind and path, i.e. here same kind and same file set - and the prefix strings) *)
+Fixpoint fs_eqb (a b : list file) : bool := match a, b with [], [] => true | x :: a', y :: b' => l1_eqb (fst x) (fst y) && l1_eqb (snd x) (snd y) && fs_eqb a' b' | _, _ => false end.
+Definition same_desc (a b : N * list file * str) : bool := (fst (fst a) =? fst (fst b)) && fs_eqb (snd (fst a)) (snd (fst b)) && l1_eqb (snd a) (snd b).
+Definition mk_descs (ms : list ((N * list file * str) * bool)) : list (N * list file * str) :=
+  build_chain chain_add_guard same_desc chain_prio_action chain_plain_action (map (fun x => (snd x, fst x)) ms).
 Definition mk_chain (ms : list ((N * list file * str) * bool)) : list member :=
-  fold_left (fun acc x => add_sys2 chain_prio_action chain_plain_action (snd x) (member_of (cfg_of (fst (fst (fst x)))) (snd (fst (fst x))) (snd (fst x))) acc) ms [].
+  map (fun d : N * list file * str => member_of (cfg_of (fst (fst d))) (snd (fst d)) (snd d)) (mk_descs ms).
 Definition ordered (ms : list member) (fwd : bool) := if fwd then ms else rev ms.
-Definition do_insx (a : ins_action) (m : xmember) (ms : list xmember) : list xmember :=
-  match a with InsertAt n => firstn n ms ++ m :: skipn n ms | Append => ms ++ [m] end.
 Definition mk_xchain (ms : list ((N * list file * str) * bool)) : list xmember :=
-  fold_left (fun (acc : list xmember) (x : (N * list file * str) * bool) => do_insx (if snd x then chain_prio_action else chain_plain_action)
-                                  (xmember_of (cfg_of (fst (fst (fst x)))) (snd (fst (fst x))) (snd (fst x))) acc) ms [].
+  map (fun d : N * list file * str => xmember_of (cfg_of (fst (fst d))) (snd (fst d)) (snd d)) (mk_descs ms).
 Definition chain_obs (ms : list ((N * list file * str) * bool)) (qs folders : list str) : list (list (list N)) :=
   let c := mk_chain ms in
   let xc := mk_xchain ms in
@@ -65,6 +72,12 @@ Definition chain_obs (ms : list ((N * list file * str) * bool)) (qs folders : li
   ++ map (fun f => flat_map (fun x => [fst x; snd (snd x)]) (chain_walk_mode chain_dedup_mode chain_relmode chain_dedup_ops (ordered c chain_walk_forward) f)) folders
   ++ map (fun f => flat_map (fun x => [fst x; snd (snd x)]) (chain_walk_repeat chain_relmode (ordered c chain_walk_forward) f)) folders.
 '''
+
+TODAY_CFG = ('{| s_backends := cons virtual_cfg (cons zip_cfg (cons vpk_cfg nil)); '
+             's_contents := cons vpk_open_bin_content (cons vpk_open_str_content nil); s_reader := vpk_reader; '
+             's_raw_get := raw_get_ops; s_raw_exists := raw_exists_ops; s_raw_open := raw_open_ops; s_raw_walk := raw_walk_ops; '
+             's_raw_rel := raw_walk_relmode; s_guard := chain_add_guard; s_prio := chain_prio_action; s_plain := chain_plain_action; '
+             's_exists := chain_exists_mode; s_dedup := chain_dedup_mode; s_rel := chain_relmode; s_dedup_ops := chain_dedup_ops |}')
 
 INSTANCE_THEOREM = '''Import ListNotations.
 Definition gen_member (m : member) : Prop :=
@@ -97,6 +110,46 @@ Proof.
     destruct Hb as [<-|[<-|[<-|[]]]]; vm_compute; reflexivity.
 Qed.
 Print Assumptions today_chain_walk_every_entry_spec.
+(* ... also when some members are today's RawFileSystem (what it lists: raw_walk_relmode; what reaches _resolve_path:
+   raw_get_ops / raw_walk_ops - the same operations, checked here), on folders that are exact for those members *)
+Definition gen_gmember (folder : str) (m : member) : Prop :=
+  gen_member m \\/
+  exists fs p, m = raw_member_of raw_walk_relmode raw_walk_ops fs p /\\ clean_fs fs = true
+               /\\ NoDup (map (fun e => nkey (fst e)) fs) /\\ okp p /\\ folder_exact fs p folder.
+Theorem today_chain_walk_with_directory_members : forall ms folder x,
+  raw_get_ops = raw_walk_ops ->
+  Forall (gen_gmember folder) ms -> okp folder ->
+  In x (chain_walk_mode chain_dedup_mode chain_relmode chain_dedup_ops ms folder) ->
+  chain_get ms (fst x) = Some (snd x).
+Proof.
+  intros ms folder x _ Hms Hf Hin.
+  apply (c19_chain_walk_with_directory_members chain_dedup_ops ms folder x); [vm_compute; reflexivity|exact Hf| |exact Hin].
+  eapply Forall_impl; [|exact Hms]. intros m [[b [fs [p [Hb [-> [Hc Hp]]]]]]|[fs [p [-> [Hc [Hn [Hp Hx]]]]]]].
+  - left. exists b, fs, p. split; [reflexivity|].
+    destruct Hb as [<-|[<-|[<-|[]]]]; (split; [vm_compute; reflexivity|]); (split; [vm_compute; reflexivity|]); split; assumption.
+  - right. exists raw_walk_relmode, raw_walk_ops, fs, p. split; [reflexivity|].
+    split; [vm_compute; reflexivity|]. split; [vm_compute; reflexivity|]. repeat split; assumption.
+Qed.
+Print Assumptions today_chain_walk_with_directory_members.
+Example today_raw_get_and_walk_ops_agree : raw_get_ops = raw_walk_ops. Proof. vm_compute. reflexivity. Qed.
+(* ... and for members mounted under any spelling of a clean subfolder ("d/", "./d", "d/.", backslashes), walked with any
+   spelling of a clean folder *)
+Definition gen_noisy (f f0 : str) (m : member) : Prop :=
+  exists b fs p p0, In b [virtual_cfg; zip_cfg; vpk_cfg] /\\ m = member_of b fs p /\\ clean_fs fs = true
+                    /\\ okp p0 /\\ spells p p0 /\\ okp f0 /\\ spells f f0.
+Theorem today_chain_walk_any_spelling : forall ms f f0 x,
+  Forall (gen_noisy f f0) ms ->
+  In x (chain_walk_mode chain_dedup_mode chain_relmode chain_dedup_ops ms f) ->
+  chain_get ms (fst x) = Some (snd x).
+Proof.
+  intros ms f f0 x Hms Hin.
+  apply (c19_chain_walk_any_spelling chain_dedup_ops ms f f0 x); [vm_compute; reflexivity| |exact Hin].
+  eapply Forall_impl; [|exact Hms]. intros m [b [fs [p [p0 [Hb [-> [Hc [Hp0 [Hsp [Hf0 Hsf]]]]]]]]]].
+  exists b, fs, p, p0. split; [reflexivity|].
+  destruct Hb as [<-|[<-|[<-|[]]]]; (split; [vm_compute; reflexivity|]); (split; [vm_compute; reflexivity|]);
+    (split; [vm_compute; reflexivity|]); (split; [exact Hc|]); (split; [exact Hp0|]); (split; [exact Hsp|]); (split; [exact Hf0|exact Hsf]).
+Qed.
+Print Assumptions today_chain_walk_any_spelling.
 '''
 
 INSTANCE_THEOREM_FORMS = '''Import ListNotations.
@@ -178,11 +231,79 @@ Proof.
   - intros [-> [Hc [Hn Hx]]]. split; [vm_compute; reflexivity|]. split; [exact Hc|]. split; assumption.
 Qed.
 Print Assumptions today_chain_with_directory_members.
-'''
+(* the chain a program ends up with after any sequence of today's add_sys calls answers every lookup form like the
+   specification applied to the members in priority order *)
+Theorem today_chain_history_spec : forall same c (h : list (bool * kmember)) q,
+  In c [vpk_open_bin_content; vpk_open_str_content] -> Forall (gen_kmember c) (map snd h) ->
+  let ms := build_chain chain_add_guard same chain_prio_action chain_plain_action h in
+  let sp := map k_spec (priority_order h) in
+  chain_get (map k_member ms) q = chain_spec sp q
+  /\\ chain_open (map k_member ms) q = chain_spec sp q
+  /\\ chain_exists chain_exists_mode (map k_xmember ms) q = is_some (chain_spec sp q)
+  /\\ chain_read ms q = option_map snd (chain_spec sp q).
+Proof.
+  intros same c h q Hc Hms. apply c19_chain_history_spec; [vm_compute; reflexivity|vm_compute; reflexivity|vm_compute; reflexivity|].
+  eapply Forall_impl; [|exact Hms]. intros m [Hb [Hf Hs]]. split; [|split; [exact Hf|]].
+  - destruct Hb as [<-|[<-|[<-|[]]]]; vm_compute; reflexivity.
+  - destruct Hs as [->|[limit [in_dir [_ ->]]]]; [exact I|].
+    destruct Hc as [<-|[<-|[]]]; vm_compute; reflexivity.
+Qed.
+Print Assumptions today_chain_history_spec.
+(* what today's RawFileSystem.walk_folder lists are stored names *)
+Theorem today_raw_walk_lists_stored_names : forall fs folder e,
+  In e (raw_walk_rel raw_walk_relmode raw_walk_ops fs folder) -> In e fs.
+Proof. intros fs folder e. apply c19_raw_walk_lists_stored_names. vm_compute. reflexivity. Qed.
+Print Assumptions today_raw_walk_lists_stored_names.
+(* the whole property at everything the translator read off today's source *)
+Definition today_cfg : source_cfg := TODAY_CFG.
+Theorem today_c19_property : property_holds today_cfg.
+Proof. apply c19_property. vm_compute. reflexivity. Qed.
+Print Assumptions today_c19_property.
+'''.replace('TODAY_CFG', TODAY_CFG)
 
 BACKENDS = ['virtual', 'zip', 'vpk', 'raw']
 FOLDERS = ['mat', 'materials', 'Materials', 'sub', 'Sub', 'a', 'A', 'deep', 'models', '.git', 'maps']
 FILES = ['x.txt', 'X.TXT', 'a.vmt', 'wall.vmt', 'Wall.VMT', 'noext', '.dot', 'mat', 'readme.md', 'x.txt.bak', 'a.b.c', 'sub']
+
+
+# ------------------------------------------------------------------------------------------------ guards around the implementation
+# A fault may make the implementation loop for ever or raise something unexpected where the harness does not expect it
+# (a constructor, a generator): either must end as a VIOLATION with the input that did it, never as a hung check or an
+# INTERNAL-ERROR.  One case normally takes well under a second (also on a loaded machine): the limit is far above that.
+CASE_LIMIT = 30.0
+MAX_HANGS = 2
+
+
+class ImplHang(BaseException):
+    """Raised by the alarm inside a call into the implementation (BaseException: no `except Exception` swallows it)."""
+
+
+@contextlib.contextmanager
+def time_limit(seconds: float):
+    if threading.current_thread() is not threading.main_thread() or not hasattr(signal, 'setitimer'):
+        yield
+        return
+
+    def on_alarm(signum, frame):
+        raise ImplHang(f'no result within {seconds:.0f} s')
+    old = signal.signal(signal.SIGALRM, on_alarm)
+    signal.setitimer(signal.ITIMER_REAL, seconds)
+    try:
+        yield
+    finally:
+        signal.setitimer(signal.ITIMER_REAL, 0)
+        signal.signal(signal.SIGALRM, old)
+
+
+def guarded(stage: str, fn, rep: dict, limit: float = CASE_LIMIT) -> list[tuple[str, str, dict]]:
+    """fn() -> list of (key, what, replay); a hang or an unexpected exception of the implementation becomes such an entry."""
+    try:
+        with time_limit(limit):
+            return fn()
+    except ImplHang as e:
+        return [(f'hang-{stage}', f'{stage}: the implementation did not return ({e}) on this input', rep)]
+    except Exception as e:      # noqa: BLE001 - whatever a broken implementation throws is a finding, not a harness error
+        return [(f'exception-{stage}', f'{stage}: unexpected {type(e).__name__}: {e}', rep)]
 
 
 # ------------------------------------------------------------------------------------------------ generators
@@ -310,6 +431,9 @@ class Built:
                 for n, b in files:
                     z.writestr(n, b)
             self.fs['zip'] = ZipFileSystem(zp)
+            # the documented way of mounting an archive held in memory (BSP pakfile): the path is only a label, so two
+            # different archives mounted like this compare equal (FileSystem.__eq__: type and path)
+            self.fs['ziplabel'] = mod.ZipFileSystem('<pakfile>', zipfile=zipfile.ZipFile(zp))
         if 'vpk' in which:
             vp = os.path.join(self.dir, 'p_dir.vpk')
             with VPK(vp, mode='w', dir_data_limit=vpk_limit) as vk:
@@ -330,9 +454,10 @@ class Built:
             self.fs['raw'] = RawFileSystem(rd)
 
     def close(self) -> None:
-        z = self.fs.get('zip')
-        if z is not None:
-            z.zip.close()
+        for k in ('zip', 'ziplabel'):
+            z = self.fs.get(k)
+            if z is not None:
+                z.zip.close()
         shutil.rmtree(self.dir, ignore_errors=True)
 
 
@@ -422,7 +547,9 @@ def _files_lit(files) -> str:
     return coq_list(f'({coq_str(n)}, {coq_bytes(b)})' for n, b in files)
 
 
-def corr_backends(ck: Ck, root: str) -> None:
+def corr_backends(ck: Ck, root: str, pool):
+    """Builds the cases on the real backends (main thread, guarded), starts their evaluation by the model on `pool`
+    and returns the function that collects the results - the coqc processes run while the caller goes on."""
     n = ck.budget(28, 400)
     cases = []
     for i in range(n):
@@ -433,75 +560,84 @@ def corr_backends(ck: Ck, root: str) -> None:
         # where the VPK keeps the data: preload only / split with a numbered archive / split with the directory tail
         lim, arch = rng.choice([(1024, 0), (0, 0), (3, 1), (0, None), (3, None), (7, None), (1, 2)])
         ck.hist('corr_vpk_placement', f'limit={lim} arch_index={arch}')
-        bt = Built(root, files, ['virtual', 'zip', 'vpk', 'raw'], vpk_limit=lim, vpk_arch=arch)
-        place = f'({lim}, {"true" if arch is None else "false"})'
+        frep = {'op': 'backends', 'files': [(x, y.decode()) for x, y in files], 'seed': 0}
         try:
-            qs = []
-            for nm, _ in rng.sample(files, min(3, len(files))):
-                sp = spellings(rng, nm)
-                qs += rng.sample(sp, min(3, len(sp)))
-            for nm, _ in rng.sample(files, min(2, len(files))):
-                ps = [q for q, _ in path_spellings(rng, nm)]
-                qs += rng.sample(ps, min(3, len(ps)))
-                qs.append(_recase(rng, rng.choice(ps)))
-            qs = rng.sample(qs, min(12, len(qs)))
-            qs += ['nonexistent.txt', files[0][0] + 'x', files[0][0].split('/')[0], './nonexistent', '', '.']
-            qs = list(dict.fromkeys(qs))
-            fc = folder_candidates(rng, files)
-            folders = [f for f, _ in rng.sample(fc, min(7, len(fc)))]
-            if '' not in folders:
-                folders.append('')
-            for k, name in enumerate(['virtual', 'zip', 'vpk']):
-                fs = bt.fs[name]
-                fl = bt.vpk_order if name == 'vpk' else files
-                res = [impl_lookup(fs, q) + (impl_open_str(fs, q),) for q in qs]
-                walks = [impl_walk(fs, f) for f in folders]
-                if any(isinstance(x, str) for r in res for x in r) or any(isinstance(w, str) for w in walks):
-                    ck.violation(f'exception-{name}', f'{name} backend raised an unexpected exception',
-                                 {'files': [(a, b.decode()) for a, b in files], 'queries': qs, 'folders': folders,
-                                  'results': repr(res), 'walks': repr(walks)})
-                    continue
-                exp = coq_list([coq_list(_code(r[1]) for r in res),
-                                coq_list(('[1]%N' if r[0] else '[0]%N') for r in res),
-                                coq_list(_code(r[2]) for r in res),
-                                coq_list(_code(r[3]) for r in res)]
-                               + [coq_list(coq_str(p) for p in w) for w in walks])
-                cases.append((f'(({k}, {_files_lit(fl)}), ({coq_list(coq_str(q) for q in qs)}, {coq_list(coq_str(f) for f in folders)}), {place}, {exp})',
-                              {'backend': name, 'files': [(a, b.decode()) for a, b in fl], 'queries': qs, 'folders': folders,
-                               'impl_lookup': [(r[0], None if r[1] is None else r[1].decode(), None if r[2] is None else r[2].decode()) for r in res],
-                               'impl_walk': walks, 'vpk_dir_data_limit': lim, 'vpk_arch_index': arch}))
-                ck.count('corr_backend_cases')
-                ck.count('corr_backend_observations', 4 * len(qs) + len(folders))
-                ck.hist('corr_backend', name)
-                if len(files) > 1 and any(w for w in walks):
-                    ck.seen(('corr', name, tuple(a for a, _ in fl), tuple(qs), tuple(folders)))
-            # raw: the same queries and folders (exact-case semantics; os.walk's order is the OS's: listed names are
-            # put into stored order, anything unexpected is kept so that it shows as a disagreement)
-            rres = [impl_lookup(bt.fs['raw'], q) + (impl_open_str(bt.fs['raw'], q),) for q in qs]
-            order = {nm: i for i, (nm, _) in enumerate(files)}
-            rwalks = []
-            for f in folders:
-                w = impl_walk(bt.fs['raw'], f)
-                rwalks.append(w if isinstance(w, str) else sorted(w, key=lambda p: (order.get(p, len(order)), p)))
-            if not any(isinstance(x, str) for r in rres for x in r) and not any(isinstance(w, str) for w in rwalks):
-                exp = coq_list([coq_list(_code(r[1]) for r in rres),
-                                coq_list(('[1]%N' if r[0] else '[0]%N') for r in rres),
-                                coq_list(_code(r[2]) for r in rres),
-                                coq_list(_code(r[3]) for r in rres)]
-                               + [coq_list(coq_str(p) for p in w) for w in rwalks])
-                cases.append((f'((3, {_files_lit(files)}), ({coq_list(coq_str(q) for q in qs)}, {coq_list(coq_str(f) for f in folders)}), {place}, {exp})',
-                              {'backend': 'raw', 'files': [(a, b.decode()) for a, b in files], 'queries': qs, 'folders': folders,
-                               'impl_lookup': [(r[0], None if r[1] is None else r[1].decode(), None if r[2] is None else r[2].decode()) for r in rres],
-                               'impl_walk': rwalks}))
-                ck.count('corr_raw_cases')
-                ck.count('corr_backend_observations', 4 * len(qs) + len(folders))
-                ck.hist('corr_backend', 'raw')
-            else:
-                ck.violation('exception-raw', 'raw backend raised an unexpected exception',
-                             {'files': [(a, b.decode()) for a, b in files], 'queries': qs, 'folders': folders,
-                              'results': repr(rres), 'walks': repr(rwalks)})
-        finally:
-            bt.close()
+            with time_limit(CASE_LIMIT):
+                bt = Built(root, files, ['virtual', 'zip', 'vpk', 'raw'], vpk_limit=lim, vpk_arch=arch)
+                place = f'({lim}, {"true" if arch is None else "false"})'
+                try:
+                    qs = []
+                    for nm, _ in rng.sample(files, min(3, len(files))):
+                        sp = spellings(rng, nm)
+                        qs += rng.sample(sp, min(3, len(sp)))
+                    for nm, _ in rng.sample(files, min(2, len(files))):
+                        ps = [q for q, _ in path_spellings(rng, nm)]
+                        qs += rng.sample(ps, min(3, len(ps)))
+                        qs.append(_recase(rng, rng.choice(ps)))
+                    qs = rng.sample(qs, min(12, len(qs)))
+                    qs += ['nonexistent.txt', files[0][0] + 'x', files[0][0].split('/')[0], './nonexistent', '', '.']
+                    qs = list(dict.fromkeys(qs))
+                    fc = folder_candidates(rng, files)
+                    folders = [f for f, _ in rng.sample(fc, min(7, len(fc)))]
+                    if '' not in folders:
+                        folders.append('')
+                    for k, name in enumerate(['virtual', 'zip', 'vpk']):
+                        fs = bt.fs[name]
+                        fl = bt.vpk_order if name == 'vpk' else files
+                        res = [impl_lookup(fs, q) + (impl_open_str(fs, q),) for q in qs]
+                        walks = [impl_walk(fs, f) for f in folders]
+                        if any(isinstance(x, str) for r in res for x in r) or any(isinstance(w, str) for w in walks):
+                            ck.violation(f'exception-{name}', f'{name} backend raised an unexpected exception',
+                                         {'files': [(a, b.decode()) for a, b in files], 'queries': qs, 'folders': folders,
+                                          'results': repr(res), 'walks': repr(walks)})
+                            continue
+                        exp = coq_list([coq_list(_code(r[1]) for r in res),
+                                        coq_list(('[1]%N' if r[0] else '[0]%N') for r in res),
+                                        coq_list(_code(r[2]) for r in res),
+                                        coq_list(_code(r[3]) for r in res)]
+                                       + [coq_list(coq_str(p) for p in w) for w in walks])
+                        cases.append((f'(({k}, {_files_lit(fl)}), ({coq_list(coq_str(q) for q in qs)}, {coq_list(coq_str(f) for f in folders)}), {place}, {exp})',
+                                      {'backend': name, 'files': [(a, b.decode()) for a, b in fl], 'queries': qs, 'folders': folders,
+                                       'impl_lookup': [(r[0], None if r[1] is None else r[1].decode(), None if r[2] is None else r[2].decode()) for r in res],
+                                       'impl_walk': walks, 'vpk_dir_data_limit': lim, 'vpk_arch_index': arch}))
+                        ck.count('corr_backend_cases')
+                        ck.count('corr_backend_observations', 4 * len(qs) + len(folders))
+                        ck.hist('corr_backend', name)
+                        if len(files) > 1 and any(w for w in walks):
+                            ck.seen(('corr', name, tuple(a for a, _ in fl), tuple(qs), tuple(folders)))
+                    # raw: the same queries and folders (exact-case semantics; os.walk's order is the OS's: listed names are
+                    # put into stored order, anything unexpected is kept so that it shows as a disagreement)
+                    rres = [impl_lookup(bt.fs['raw'], q) + (impl_open_str(bt.fs['raw'], q),) for q in qs]
+                    order = {nm: i for i, (nm, _) in enumerate(files)}
+                    rwalks = []
+                    for f in folders:
+                        w = impl_walk(bt.fs['raw'], f)
+                        rwalks.append(w if isinstance(w, str) else sorted(w, key=lambda p: (order.get(os.path.normpath(p), len(order)), p)))
+                    if not any(isinstance(x, str) for r in rres for x in r) and not any(isinstance(w, str) for w in rwalks):
+                        exp = coq_list([coq_list(_code(r[1]) for r in rres),
+                                        coq_list(('[1]%N' if r[0] else '[0]%N') for r in rres),
+                                        coq_list(_code(r[2]) for r in rres),
+                                        coq_list(_code(r[3]) for r in rres)]
+                                       + [coq_list(coq_str(p) for p in w) for w in rwalks])
+                        cases.append((f'((3, {_files_lit(files)}), ({coq_list(coq_str(q) for q in qs)}, {coq_list(coq_str(f) for f in folders)}), {place}, {exp})',
+                                      {'backend': 'raw', 'files': [(a, b.decode()) for a, b in files], 'queries': qs, 'folders': folders,
+                                       'impl_lookup': [(r[0], None if r[1] is None else r[1].decode(), None if r[2] is None else r[2].decode()) for r in rres],
+                                       'impl_walk': rwalks}))
+                        ck.count('corr_raw_cases')
+                        ck.count('corr_backend_observations', 4 * len(qs) + len(folders))
+                        ck.hist('corr_backend', 'raw')
+                    else:
+                        ck.violation('exception-raw', 'raw backend raised an unexpected exception',
+                                     {'files': [(a, b.decode()) for a, b in files], 'queries': qs, 'folders': folders,
+                                      'results': repr(rres), 'walks': repr(rwalks)})
+                finally:
+                    bt.close()
+        except ImplHang as e:
+            ck.violation('hang-backends', f'a backend did not return ({e}) while the correspondence cases were computed', frep)
+            break
+        except Exception as e:      # noqa: BLE001
+            ck.violation('exception-backends', f'building / querying the backends raised {type(e).__name__}: {e}', frep)
+            continue
     if cases:
         ck.sample({'correspondence_case': cases[min(5, len(cases) - 1)][1]})
     bad: list[int] = []
@@ -516,23 +652,28 @@ def corr_backends(ck: Ck, root: str) -> None:
                 '| k => l3_eqb (obs k (fst pl) (snd pl) (cfg_of k) (snd kf) (fst qf) (snd qf)) e end) 0 ' + lit)
         return lo, ck.coq_eval(IMPORTS, [expr], name=f'backends{lo}', preamble=PRE)
 
-    for lo, vals in _parallel(batch, range(0, len(cases), 45)):
-        if vals is None:
-            ck.obligation('correspondence:backends', False, 'model could not be evaluated')
-            ck.tie_broken.append('correspondence backends: model evaluation failed')
-            return
-        bad += [lo + i for i in parse_coq_N_list(vals[0])]
-    bad.sort()
-    ck.extra['corr_backends_coq_s'] = round(time.time() - _t0, 1)
-    ck.obligation('correspondence:backends', not bad,
-                  f'{len(cases)} (backend, file set, queries, folders) cases: generated model (vm_compute) vs real '
-                  f'Virtual/Zip/VPK/Raw file systems: {len(bad)} disagreements')
-    if bad:
-        ck.tie_broken.append('correspondence backends (SM/FsChain.v over Gen/FsWalk_gen.v vs srctools.filesys)')
-        ck.extra['backend_disagreement'] = min((cases[i][1] for i in bad), key=lambda d: len(repr(d)))
+    futs = [pool.submit(batch, lo) for lo in range(0, len(cases), 45)]
+
+    def finish() -> None:
+        for f in futs:
+            lo, vals = f.result()
+            if vals is None:
+                ck.obligation('correspondence:backends', False, 'model could not be evaluated')
+                ck.tie_broken.append('correspondence backends: model evaluation failed')
+                return
+            bad.extend(lo + i for i in parse_coq_N_list(vals[0]))
+        bad.sort()
+        ck.extra['corr_backends_coq_s'] = round(time.time() - _t0, 1)
+        ck.obligation('correspondence:backends', not bad,
+                      f'{len(cases)} (backend, file set, queries, folders) cases: generated model (vm_compute) vs real '
+                      f'Virtual/Zip/VPK/Raw file systems: {len(bad)} disagreements')
+        if bad:
+            ck.tie_broken.append('correspondence backends (SM/FsChain.v over Gen/FsWalk_gen.v vs srctools.filesys)')
+            ck.extra['backend_disagreement'] = min((cases[i][1] for i in bad), key=lambda d: len(repr(d)))
+    return finish
 
 
-def corr_chain(ck: Ck, root: str) -> None:
+def corr_chain(ck: Ck, root: str, pool):
     from srctools.filesys import FileSystemChain
     n = ck.budget(40, 400)
     cases = []
@@ -542,82 +683,93 @@ def corr_chain(ck: Ck, root: str) -> None:
         sets = [s for s in sets if s]
         if not sets:
             continue
-        builts = [Built(root, s, ['virtual', 'zip', 'vpk']) for s in sets]
+        members = []
+        crep = lambda: {'op': 'chain', 'sets': [[(x, y.decode()) for x, y in s] for s in sets], 'members': [list(m) for m in members]}
+        builts = []
         try:
-            members = []
-            for _ in range(rng.choice([1, 2, 3, 4])):
-                j = rng.randrange(len(sets))
-                kind = rng.choice(['virtual', 'zip', 'vpk'])
-                dirs = sorted({'/'.join(nm.split('/')[:k]) for nm, _ in sets[j] for k in range(1, len(nm.split('/')))})
-                pfx = ''
-                if dirs and rng.random() < 0.6:
-                    d = rng.choice(dirs)
-                    pfx = rng.choice([d, d, d + '/', _recase(rng, d), d.replace('/', '\\'), './' + d, d + '/.'])
-                members.append((kind, j, pfx, rng.random() < 0.3))
-            ch = FileSystemChain()
-            for kind, j, pfx, prio in members:
-                ch.add_sys(builts[j].fs[kind], pfx, priority=prio)
-            qs = []
-            for kind, j, pfx, _ in members:
-                for nm, _b in rng.sample(sets[j], min(2, len(sets[j]))):
-                    qs.append(nm)
-                    p = _pfx(pfx)
-                    if p and fold(nm).startswith(p + '/'):
-                        qs.append(_recase(rng, nm[len(p) + 1:]))
-                        qs.append(nm[len(p) + 1:].replace('/', '\\'))
-            qs = list(dict.fromkeys(qs + ['nonexistent']))[:10]
-            folders = ['']
-            for kind, j, pfx, _ in members[:2]:
-                c = folder_candidates(rng, sets[j])
-                folders += [f for f, _ in rng.sample(c, min(2, len(c)))]
-            folders = list(dict.fromkeys(folders))
-            gets = []
-            exs = []
-            opens = []
-            for q in qs:
+            with time_limit(CASE_LIMIT):
+                builts = [Built(root, s, ['virtual', 'zip', 'vpk']) for s in sets]
                 try:
-                    with ch[q].open_bin() as fh:
-                        gets.append(fh.read())
-                except FileNotFoundError:
-                    gets.append(None)
-                exs.append(bool(q in ch))
-                try:
-                    with ch.open_bin(q) as fh:
-                        opens.append(fh.read())
-                except FileNotFoundError:
-                    opens.append(None)
-            walks = []
-            for f in folders:
-                w = []
-                for fl in ch.walk_folder(f):
-                    with fl.open_bin() as fh:
-                        w += [coq_str(fl.path), coq_bytes(fh.read())]
-                walks.append(w)
-            for f in folders:       # walk_folder_repeat: every member's listing, in member order
-                w = []
-                for fl in ch.walk_folder_repeat(f):
-                    with fl.open_bin() as fh:
-                        w += [coq_str(fl.path), coq_bytes(fh.read())]
-                walks.append(w)
-            ms_lit = coq_list(
-                f'(({BACKENDS.index(kind)}, {_files_lit(builts[j].vpk_order if kind == "vpk" else sets[j])}, {coq_str(pfx)}), {"true" if prio else "false"})'
-                for kind, j, pfx, prio in members)
-            exp = coq_list([coq_list(_code(g) for g in gets), coq_list(('[1]%N' if x else '[0]%N') for x in exs),
-                            coq_list(_code(g) for g in opens)] + [coq_list(w) for w in walks])
-            cases.append((f'(({ms_lit}, ({coq_list(coq_str(q) for q in qs)}, {coq_list(coq_str(f) for f in folders)})), {exp})',
-                          {'members(kind,set,prefix,priority)': members, 'sets': [[a for a, _ in s] for s in sets], 'queries': qs,
-                           'folders': folders, 'impl_get': [None if g is None else g.decode() for g in gets], 'impl_in': exs}))
-            ck.count('corr_chain_cases')
-            ck.count('corr_chain_observations', 3 * len(qs) + 2 * len(folders))
-            ck.hist('corr_chain_members', len(members))
-            if len(members) > 1 and any(g is not None for g in gets):
-                ck.seen(('corrchain', tuple(members), tuple(tuple(a for a, _ in s) for s in sets), tuple(qs)))
+                    members = []
+                    for _ in range(rng.choice([1, 2, 3, 4])):
+                        j = rng.randrange(len(sets))
+                        kind = rng.choice(['virtual', 'zip', 'vpk'])
+                        dirs = sorted({'/'.join(nm.split('/')[:k]) for nm, _ in sets[j] for k in range(1, len(nm.split('/')))})
+                        pfx = ''
+                        if dirs and rng.random() < 0.6:
+                            d = rng.choice(dirs)
+                            pfx = rng.choice([d, d, d + '/', _recase(rng, d), d.replace('/', '\\'), './' + d, d + '/.'])
+                        members.append((kind, j, pfx, rng.random() < 0.3))
+                    ch = FileSystemChain()
+                    for kind, j, pfx, prio in members:
+                        ch.add_sys(builts[j].fs[kind], pfx, priority=prio)
+                    qs = []
+                    for kind, j, pfx, _ in members:
+                        for nm, _b in rng.sample(sets[j], min(2, len(sets[j]))):
+                            qs.append(nm)
+                            p = _pfx(pfx)
+                            if p and fold(nm).startswith(p + '/'):
+                                qs.append(_recase(rng, nm[len(p) + 1:]))
+                                qs.append(nm[len(p) + 1:].replace('/', '\\'))
+                    qs = list(dict.fromkeys(qs + ['nonexistent']))[:10]
+                    folders = ['']
+                    for kind, j, pfx, _ in members[:2]:
+                        c = folder_candidates(rng, sets[j])
+                        folders += [f for f, _ in rng.sample(c, min(2, len(c)))]
+                    folders = list(dict.fromkeys(folders))
+                    gets = []
+                    exs = []
+                    opens = []
+                    for q in qs:
+                        try:
+                            with ch[q].open_bin() as fh:
+                                gets.append(fh.read())
+                        except FileNotFoundError:
+                            gets.append(None)
+                        exs.append(bool(q in ch))
+                        try:
+                            with ch.open_bin(q) as fh:
+                                opens.append(fh.read())
+                        except FileNotFoundError:
+                            opens.append(None)
+                    walks = []
+                    for f in folders:
+                        w = []
+                        for fl in ch.walk_folder(f):
+                            with fl.open_bin() as fh:
+                                w += [coq_str(fl.path), coq_bytes(fh.read())]
+                        walks.append(w)
+                    for f in folders:       # walk_folder_repeat: every member's listing, in member order
+                        w = []
+                        for fl in ch.walk_folder_repeat(f):
+                            with fl.open_bin() as fh:
+                                w += [coq_str(fl.path), coq_bytes(fh.read())]
+                        walks.append(w)
+                    ms_lit = coq_list(
+                        f'(({BACKENDS.index(kind)}, {_files_lit(builts[j].vpk_order if kind == "vpk" else sets[j])}, {coq_str(pfx)}), {"true" if prio else "false"})'
+                        for kind, j, pfx, prio in members)
+                    exp = coq_list([coq_list(_code(g) for g in gets), coq_list(('[1]%N' if x else '[0]%N') for x in exs),
+                                    coq_list(_code(g) for g in opens)] + [coq_list(w) for w in walks])
+                    cases.append((f'(({ms_lit}, ({coq_list(coq_str(q) for q in qs)}, {coq_list(coq_str(f) for f in folders)})), {exp})',
+                                  {'members(kind,set,prefix,priority)': members, 'sets': [[a for a, _ in s] for s in sets], 'queries': qs,
+                                   'folders': folders, 'impl_get': [None if g is None else g.decode() for g in gets], 'impl_in': exs}))
+                    ck.count('corr_chain_cases')
+                    ck.count('corr_chain_observations', 3 * len(qs) + 2 * len(folders))
+                    ck.hist('corr_chain_members', len(members))
+                    if len(members) > 1 and any(g is not None for g in gets):
+                        ck.seen(('corrchain', tuple(members), tuple(tuple(a for a, _ in s) for s in sets), tuple(qs)))
+                except Exception as e:      # noqa: BLE001
+                    ck.violation('chain-exception', f'FileSystemChain raised {type(e).__name__}: {e}',
+                                 {'members': members, 'sets': [[a for a, _ in s] for s in sets]})
+                finally:
+                    for b in builts:
+                        b.close()
+        except ImplHang as e:
+            ck.violation('hang-chain', f'FileSystemChain or a member did not return ({e}) while the correspondence cases were computed', crep())
+            break
         except Exception as e:      # noqa: BLE001
-            ck.violation('chain-exception', f'FileSystemChain raised {type(e).__name__}: {e}',
-                         {'members': members, 'sets': [[a for a, _ in s] for s in sets]})
-        finally:
-            for b in builts:
-                b.close()
+            ck.violation('exception-chain', f'building the members raised {type(e).__name__}: {e}', crep())
+            continue
     if cases:
         ck.sample({'chain_correspondence_case': cases[min(3, len(cases) - 1)][1]})
     bad: list[int] = []
@@ -629,19 +781,24 @@ def corr_chain(ck: Ck, root: str) -> None:
                 'l3_eqb (chain_obs (fst (fst c)) (fst (snd (fst c))) (snd (snd (fst c)))) (snd c)) 0 ' + lit)
         return lo, ck.coq_eval(IMPORTS, [expr], name=f'chain{lo}', preamble=PRE)
 
-    for lo, vals in _parallel(batch, range(0, len(cases), 40)):
-        if vals is None:
-            ck.obligation('correspondence:chain', False, 'model could not be evaluated')
-            ck.tie_broken.append('correspondence chain: model evaluation failed')
-            return
-        bad += [lo + i for i in parse_coq_N_list(vals[0])]
-    bad.sort()
-    ck.obligation('correspondence:chain', not bad,
-                  f'{len(cases)} chains (1-4 members over Virtual/Zip/VPK, prefixes, priority flags): generated model vs '
-                  f'FileSystemChain chain[q] / q in chain / open_bin(q) / walk_folder / walk_folder_repeat: {len(bad)} disagreements')
-    if bad:
-        ck.tie_broken.append('correspondence chain (SM/FsChain.v chain_get/chain_walk vs srctools.filesys.FileSystemChain)')
-        ck.extra['chain_disagreement'] = min((cases[i][1] for i in bad), key=lambda d: len(repr(d)))
+    futs = [pool.submit(batch, lo) for lo in range(0, len(cases), 40)]
+
+    def finish() -> None:
+        for f in futs:
+            lo, vals = f.result()
+            if vals is None:
+                ck.obligation('correspondence:chain', False, 'model could not be evaluated')
+                ck.tie_broken.append('correspondence chain: model evaluation failed')
+                return
+            bad.extend(lo + i for i in parse_coq_N_list(vals[0]))
+        bad.sort()
+        ck.obligation('correspondence:chain', not bad,
+                      f'{len(cases)} chains (1-4 members over Virtual/Zip/VPK, prefixes, priority flags): generated model vs '
+                      f'FileSystemChain chain[q] / q in chain / open_bin(q) / walk_folder / walk_folder_repeat: {len(bad)} disagreements')
+        if bad:
+            ck.tie_broken.append('correspondence chain (SM/FsChain.v chain_get/chain_walk vs srctools.filesys.FileSystemChain)')
+            ck.extra['chain_disagreement'] = min((cases[i][1] for i in bad), key=lambda d: len(repr(d)))
+    return finish
 
 
 # ------------------------------------------------------------------------------------------------ oracle: single backends
@@ -796,6 +953,13 @@ def check_backends(root: str, files, rng: random.Random, stats=None) -> list[tup
                         if got != dict(files).get(p):
                             out.append(('walk-raw-listed-name-not-found', f'raw: listed {p!r} looks up to {got!r}',
                                         {'op': 'walk', 'backend': name, 'files': fj, 'folder': folder}))
+        # the file systems are read-only views: the directory handed to RawFileSystem (and the scratch folder around it)
+        # holds exactly what was put there
+        on_disk = sorted(os.path.relpath(os.path.join(dp, f), os.path.join(bt.dir, 'raw')).replace(os.sep, '/')
+                         for dp, _, fns in os.walk(os.path.join(bt.dir, 'raw')) for f in fns)
+        if on_disk != sorted(nm for nm, _ in files) or any(n not in ('a.zip', 'raw') and not (n.startswith('p_') and n.endswith('.vpk')) for n in os.listdir(bt.dir)):
+            out.append(('directory-modified', f'after the lookups and walks the directory holds {on_disk}, the scratch folder {sorted(os.listdir(bt.dir))}',
+                        {'op': 'backends', 'files': fj, 'seed': 0}))
     finally:
         bt.close()
     return out
@@ -1184,13 +1348,25 @@ def check_chain(root: str, sets, members, rng: random.Random, stats=None) -> lis
     try:
         ch = FileSystemChain()
         order: list[tuple] = []
-        for kind, j, pfx, prio in members:
+        for n_added, (kind, j, pfx, prio) in enumerate(members):
+            if n_added:
+                # the chain is used between the add_sys calls (a program mounts, looks something up, mounts more):
+                # nothing the earlier answers leave behind may show in the later ones
+                for nm, _b in sets[j][:2]:
+                    read_forms(ch, nm, 'utf8')
+                    read_forms(ch, nm.rsplit('/', 1)[-1], 'utf8')
+                try:
+                    [fl.path for fl in ch.walk_folder('')]
+                except Exception:      # noqa: BLE001 - judged below on the finished chain
+                    pass
             ch.add_sys(builts[j].fs[kind], pfx, priority=prio)
             if prio:
                 order.insert(0, (kind, j, pfx))
             else:
                 order.append((kind, j, pfx))
         sms = [spec_map(s) for s in sets]
+        if len(ch.systems) != len(order):
+            out.append(('chain-mounted-count', f'{len(order)} add_sys calls left {len(ch.systems)} members in chain.systems', dict(rep)))
 
         def member_has(kind, j, pfx, q):
             p = _pfx(pfx)
@@ -1374,6 +1550,13 @@ def gen_chain(rng: random.Random):
             d = rng.choice(dirs)
             pfx = d if (kind == 'raw' or use_raw) else rng.choice([d, d, d + '/', _recase(rng, d), d.replace('/', '\\'), './' + d, d + '/.'])
         members.append((kind, j, pfx, rng.random() < 0.3))
+    if not use_raw and rng.random() < 0.3:
+        # archives mounted under one label: distinct objects with different contents that compare equal
+        members = [(('ziplabel' if k == 'zip' or rng.random() < 0.4 else k), j, p, pr) for k, j, p, pr in members]
+    if rng.random() < 0.25 and len(members) < 4:
+        # a member that is mounted already is added again with priority (promotion)
+        k, j, p, _ = rng.choice(members)
+        members.append((k, j, p, True))
     return sets, members
 
 
@@ -1382,6 +1565,10 @@ CORPUS_CHAINS = [
     ([[('materials/Brick/wall.vmt', b'1'), ('materials/a.vmt', b'3'), ('top.txt', b'4')]], [('vpk', 0, 'materials', False)]),
     ([[('a/x.txt', b'one'), ('b/y.txt', b'two')], [('x.txt', b'three'), ('a/x.txt', b'four')]],
      [('zip', 0, 'a', False), ('virtual', 1, '', False), ('vpk', 1, 'a', True)]),
+    ([[('a/x.txt', b'one'), ('b/y.txt', b'two')], [('x.txt', b'three'), ('a/x.txt', b'four')]],
+     [('ziplabel', 0, '', False), ('ziplabel', 1, '', False)]),
+    ([[('a/x.txt', b'one'), ('b/y.txt', b'two')], [('x.txt', b'three'), ('a/x.txt', b'four')]],
+     [('virtual', 1, '', False), ('zip', 0, '', False), ('zip', 0, '', True)]),
 ]
 
 
@@ -1405,19 +1592,43 @@ def shrink_files(files, pred):
     return cur
 
 
+def vpk_forgets_order(root: str) -> bool:
+    """Two VPKs holding 'a/x.txt' and 'A/x.txt', added in either order: are the files on disk the same bytes?"""
+    from srctools.vpk import VPK
+    blobs = []
+    for order in ([('a/x.txt', b'first'), ('A/x.txt', b'second')], [('A/x.txt', b'second'), ('a/x.txt', b'first')]):
+        d = tempfile.mkdtemp(dir=root)
+        try:
+            vp = os.path.join(d, 'p_dir.vpk')
+            with VPK(vp, mode='w') as vk:
+                for n, b in order:
+                    vk.add_file(n, b)
+            blobs.append({f: open(os.path.join(d, f), 'rb').read() for f in sorted(os.listdir(d))})
+        finally:
+            shutil.rmtree(d, ignore_errors=True)
+    return blobs[0] == blobs[1]
+
+
 def search(ck: Ck, root: str) -> None:
     found: dict[str, tuple[str, dict]] = {}
 
     def stats(k, n):
         ck.count(k, n)
 
+    hangs = [0]
+
     def note(viols, shrinker=None):
         for key, what, rep in viols:
             size = len(repr(rep))
+            if key.startswith('hang-'):
+                hangs[0] += 1
             if key not in found or size < len(repr(found[key][1])):
                 found[key] = (what, rep)
 
-    n = ck.budget(60, 300)
+    def unshrinkable(key):
+        return key.startswith(('hang-', 'exception-'))
+
+    n = ck.budget(50, 300)
     for i in range(n):
         files = CORPUS_SETS[i] if i < len(CORPUS_SETS) else gen_files(ck.rng)
         if not files:
@@ -1429,12 +1640,18 @@ def search(ck: Ck, root: str) -> None:
         if len(files) > 1:
             ck.seen(('set', tuple(nm for nm, _ in files)))
         seed = ck.rng.randrange(1 << 30)
-        v = check_backends(root, files, random.Random(seed), stats)
+        if hangs[0] >= MAX_HANGS:
+            break
+        brep = {'op': 'backends', 'files': [(a, b.decode()) for a, b in files], 'seed': seed}
+        v = guarded('backends', lambda: check_backends(root, files, random.Random(seed), stats), brep)
         for key in {k for k, _, _ in v}:
+            if unshrinkable(key):
+                note([x for x in v if x[0] == key])
+                continue
             if key in found and len(found[key][1].get('files', [])) <= 2:
                 continue
-            small = shrink_files(files, lambda fs, key=key: any(k == key for k, _, _ in check_backends(root, fs, random.Random(seed))))
-            v2 = [x for x in check_backends(root, small, random.Random(seed)) if x[0] == key]
+            small = shrink_files(files, lambda fs, key=key: any(k == key for k, _, _ in guarded('backends', lambda: check_backends(root, fs, random.Random(seed)), {})))
+            v2 = [x for x in guarded('backends', lambda: check_backends(root, small, random.Random(seed)), {}) if x[0] == key]
             note(v2 or [x for x in v if x[0] == key])
     # contents: every VPK placement, sizes around the preload limits, every way of opening
     for i in range(ck.budget(8, 60)):
@@ -1448,8 +1665,16 @@ def search(ck: Ck, root: str) -> None:
             ck.hist('content_size', sz)
         if len(sized) > 1:
             ck.seen(('sized', tuple(sized), repr(params)))
-        v = check_content(root, sized, params, stats, ck.hist)
+        if hangs[0] >= MAX_HANGS:
+            break
+        crep = {'op': 'content', 'files(name,size)': [list(x) for x in sized], 'placements': params}
+        v = guarded('content', lambda: check_content(root, sized, params, stats, ck.hist), crep)
         for key in {k for k, _, _ in v}:
+            if unshrinkable(key):
+                note([x for x in v if x[0] == key])
+                continue
+            if key in found and len(found[key][1].get('files(name,size)', [])) <= 2:
+                continue
             cur_s, cur_p = list(sized), params
             changed = True
             while changed and len(cur_s) > 1:
@@ -1457,18 +1682,28 @@ def search(ck: Ck, root: str) -> None:
                 for j in range(len(cur_s)):
                     cs = cur_s[:j] + cur_s[j + 1:]
                     cp = {pl: dict(prm, arch=prm['arch'][:j] + prm['arch'][j + 1:]) for pl, prm in cur_p.items()}
-                    if any(k == key for k, _, _ in check_content(root, cs, cp)):
+                    if any(k == key for k, _, _ in guarded('content', lambda: check_content(root, cs, cp), {})):
                         cur_s, cur_p, changed = cs, cp, True
                         break
-            v2 = [x for x in check_content(root, cur_s, cur_p) if x[0] == key]
+            v2 = [x for x in guarded('content', lambda: check_content(root, cur_s, cur_p), {}) if x[0] == key]
             note(v2 or [x for x in v if x[0] == key])
+    # the known finding case-duplicate-winner-vpk-differs: theorem c19_case_duplicate_winner_needs_order says that no
+    # reader of a container that is the same for both insertion orders can serve "the file stored last"; here: the real
+    # archives written in the two orders are byte-identical (VPK.write_dirfile sorts) - evidence, not an obligation
+    try:
+        with time_limit(CASE_LIMIT):
+            ck.extra['vpk_archive_forgets_insertion_order'] = vpk_forgets_order(root)
+    except (ImplHang, Exception) as e:      # noqa: BLE001
+        ck.extra['vpk_archive_forgets_insertion_order'] = f'not determined: {type(e).__name__}'
     for files in NONASCII_SETS:
         ck.count('file_sets_nonascii')
-        note(check_nonascii(root, files, random.Random(ck.rng.randrange(1 << 30)), stats))
+        nseed = ck.rng.randrange(1 << 30)
+        note(guarded('nonascii', lambda: check_nonascii(root, files, random.Random(nseed), stats),
+                     {'op': 'nonascii', 'files': [(a, b.decode()) for a, b in files]}))
     ck.sample({'file_set': [nm for nm, _ in CORPUS_SETS[0]], 'folder_arguments': folder_candidates(random.Random(1), CORPUS_SETS[0])[:12],
                'query_spellings_of_first': spellings(random.Random(1), CORPUS_SETS[0][0][0])})
     # chains: random members; for small chains every ordering
-    m = ck.budget(60, 350)
+    m = ck.budget(50, 350)
     for i in range(m):
         g = CORPUS_CHAINS[i] if i < len(CORPUS_CHAINS) else gen_chain(ck.rng)
         if g is None:
@@ -1482,10 +1717,16 @@ def search(ck: Ck, root: str) -> None:
             ck.hist('chain_members', len(perm))
             ck.hist('chain_prefixed_members', sum(1 for x in perm if x[2]))
             ck.hist('chain_priority_members', sum(1 for x in perm if x[3]))
+            ck.hist('chain_member_kinds', '+'.join(sorted({x[0] for x in perm})))
+            ck.hist('chain_same_label_archives', sum(1 for x in perm if x[0] == 'ziplabel'))
+            ck.hist('chain_member_added_twice', len(perm) - len({x[:3] for x in perm}))
             if len(perm) > 1:
                 ck.seen(('chain', perm, tuple(tuple(nm for nm, _ in s) for s in sets)))
             seed = ck.rng.randrange(1 << 30)
-            note(check_chain(root, sets, list(perm), random.Random(seed), stats))
+            if hangs[0] >= MAX_HANGS:
+                break
+            note(guarded('chain', lambda: check_chain(root, sets, list(perm), random.Random(seed), stats),
+                         {'op': 'chain', 'sets': [[(a, b.decode()) for a, b in s] for s in sets], 'members': [list(m) for m in perm]}))
     ck.sample({'chain_members(kind,set,prefix,priority)': [list(x) for x in CORPUS_CHAINS[2][1]],
                'sets': [[nm for nm, _ in s] for s in CORPUS_CHAINS[2][0]]})
     for key, (what, rep) in sorted(found.items()):
@@ -1506,7 +1747,9 @@ def run(ck: Ck) -> None:
                'subfolder prefix in several spellings (exact, trailing slash, re-cased, backslashed, "./d", "d/."), priority flags, '
                'every ordering of chains of up to 3 (thorough: 4) members; walk_folder and walk_folder_repeat; every public form '
                '([], in, _get_file, _file_exists, open_bin, open_str, File.open_str, iter) on backends and chains; VPKs written in every data '
-               'placement (preload only, directory tail, numbered archive, single file, no limit) with file sizes 0-100 and around 1024 / 65535. '
+               'placement (preload only, directory tail, numbered archive, single file, no limit) with file sizes 0-100 and around 1024 / 65535; '
+               'chains also over archives mounted under one label (distinct objects that compare equal), a mounted member re-added with priority, and '
+               'lookups / walks between the add_sys calls. '
                'Distinct = different name list (sets) or member tuple (chains); non-trivial = at least two files / two members.')
     ck.trusted.append('hand-written model SM/FsChain.v interpreted over Gen/FsWalk_gen.v (tied by correspondence on every run)')
     ck.trusted.append('zipfile, srctools.vpk.VPK writer/reader and the OS directory tree used to build the real backends; posixpath')
@@ -1519,7 +1762,7 @@ def run(ck: Ck) -> None:
                       'name of the numbered archive that is opened are trusted here (property C13)')
     ck.assumptions.append('case folding is modelled for ASCII only (non-ASCII casefold: oracle on the in-memory and zip backends); stored names are clean relative paths using "/"')
     ck.assumptions.append('the platform is POSIX with a case-sensitive file system (RawFileSystem: exact names only; "\\" is converted by the library, not by the OS)')
-    ck.assumptions.append('composition theorems: member prefixes and the folder argument are empty or clean relative paths (either slash, any case)')
+    ck.assumptions.append('walk composition theorems: member prefixes and the folder argument spell an empty or clean relative path (redundant separators and "." segments allowed, either slash, any case; no ".."); for directory members the folder is cleanly spelt and exact (every stored file below it up to case lies below it exactly)')
     root = str(ck.scratch)
     _ta = time.time()
     ok_t = ck.translate('FsWalk_gen', c19_walk.translate)
@@ -1530,9 +1773,9 @@ def run(ck: Ck) -> None:
         from concurrent.futures import ThreadPoolExecutor
         pool = ThreadPoolExecutor(max_workers=3)
         fut_thm = pool.submit(ck.theorems, 'Props/C19.v')      # Print Assumptions of every theorem (its obligations are moved to the front below)
-        fut_compose = pool.submit(ck.coq_scratch, ''.join(f'Require Import {i}.\n' for i in IMPORTS + ['SV.SM.FsChainProofs', 'SV.SM.FsChainCompose', 'SV.SM.FsChainFormsProofs', 'SV.SM.FsChainWhole', 'SV.Props.C19'])
+        fut_compose = pool.submit(ck.coq_scratch, ''.join(f'Require Import {i}.\n' for i in IMPORTS + ['SV.SM.FsChainProofs', 'SV.SM.FsChainCompose', 'SV.SM.FsChainFormsProofs', 'SV.SM.FsChainWhole', 'SV.SM.FsChainAdd', 'SV.SM.FsChainWalkGen', 'SV.SM.FsChainNoise', 'SV.Props.C19'])
                                   + INSTANCE_THEOREM, 'inst_compose', 300)
-        fut_forms = pool.submit(ck.coq_scratch, ''.join(f'Require Import {i}.\n' for i in IMPORTS + ['SV.SM.FsChainProofs', 'SV.SM.FsChainCompose', 'SV.SM.FsChainFormsProofs', 'SV.SM.FsChainWhole', 'SV.SM.FsChainReadProofs', 'SV.SM.FsChainMixed', 'SV.Props.C19'])
+        fut_forms = pool.submit(ck.coq_scratch, ''.join(f'Require Import {i}.\n' for i in IMPORTS + ['SV.SM.FsChainProofs', 'SV.SM.FsChainCompose', 'SV.SM.FsChainFormsProofs', 'SV.SM.FsChainWhole', 'SV.SM.FsChainReadProofs', 'SV.SM.FsChainMixed', 'SV.SM.FsChainAdd', 'SV.SM.FsChainProperty', 'SV.Props.C19'])
                                 + INSTANCE_THEOREM_FORMS, 'inst_forms', 300)
         _tc = time.time()
         obs = {}
@@ -1544,6 +1787,7 @@ def run(ck: Ck) -> None:
             obs[f'{short}_walk_sound_form'] = f'walk_ok {cfg}'
             obs[f'{short}_walk_iterates_folded_dict'] = f'walk_over_dict {cfg}'
             obs[f'{short}_walk_no_exact_case_prefilter'] = f'negb (prefilter_case_sensitive {cfg})'
+            obs[f'{short}_walk_normalises_folder_spelling'] = f'walk_norm {cfg}'
         obs['virtual_walk_root_is_not_dot'] = 'negb (folder_root_is_dot virtual_cfg)'
         for short, cfg in (('virtual', 'virtual_cfg'), ('zip', 'zip_cfg'), ('vpk', 'vpk_cfg')):
             obs[f'{short}_keys_normalise_every_spelling'] = f'backend_keys_norm {cfg}'
@@ -1552,6 +1796,10 @@ def run(ck: Ck) -> None:
             obs[f'raw_{what}_converts_slashes_only'] = f'raw_ops_ok raw_{what}_ops'
         obs['chain_priority_inserts_first'] = 'match chain_prio_action with InsertAt O => true | _ => false end'
         obs['chain_plain_appends_last'] = 'match chain_plain_action with Append => true | _ => false end'
+        obs['chain_add_sys_mounts_every_member'] = 'guard_ok chain_add_guard'
+        obs['chain_add_sys_history_in_priority_order'] = 'andb (guard_ok chain_add_guard) (actions_ok chain_prio_action chain_plain_action)'
+        obs['raw_walk_lists_names_relative_to_root'] = 'raw_rel_ok raw_walk_relmode'
+        obs['property_hypotheses_hold_for_the_generated_configuration'] = f'source_ok {TODAY_CFG}'
         obs['chain_get_in_member_order'] = 'chain_get_forward'
         obs['chain_get_joins_prefix'] = 'match chain_get_join_ops with cons OSlash nil => true | _ => false end'
         obs['chain_walk_in_member_order'] = 'chain_walk_forward'
@@ -1565,28 +1813,61 @@ def run(ck: Ck) -> None:
         obs['vpk_open_bin_reads_whole_file'] = 'cexpr_whole false vpk_open_bin_content'
         obs['vpk_open_str_reads_whole_file'] = 'cexpr_whole false vpk_open_str_content'
         obs['vpk_reader_returns_preload_and_exact_rest'] = 'rexpr_whole None false vpk_reader'
-        ck.instance_obligations(IMPORTS, obs)
+        failed_inst = [oname for oname, ok in ck.instance_obligations(IMPORTS, obs).items() if not ok]
         _td = time.time()
-        # the composition theorem instantiated at the generated configuration (type-checks only if today's chain
-        # de-duplicates by skipping, lists prefix-relative names and every backend form is sound)
-        rc, out = fut_compose.result()
-        ck.obligation('instance-theorem:chain_walk_lookup_closed', rc == 0,
-                      'c19_chain_walk_lookup_closed and c19_chain_walk_every_entry_spec applied to chain_walk_mode chain_dedup_mode '
-                      'chain_relmode chain_dedup_ops over members built from virtual_cfg / zip_cfg / vpk_cfg' + ('' if rc == 0 else ': ' + out[-400:]))
-        rc, out = fut_forms.result()
-        ck.obligation('instance-theorem:chain_exists_and_vpk_bytes', rc == 0,
-                      'c19_chain_exists_agrees_backends at chain_exists_mode, c19_vpk_open_same_bytes at vpk_open_bin_content / '
-                      'vpk_open_str_content, c19_chain_every_form_spec (every lookup form of a chain = the specification) over '
-                      'virtual_cfg / zip_cfg / vpk_cfg, c19_vpk_open_through_reader at vpk_reader, c19_chain_with_directory_members_spec at raw_get_ops' + ('' if rc == 0 else ': ' + out[-400:]))
+        def collect_instance_theorems() -> None:
+            # the composition theorem instantiated at the generated configuration (type-checks only if today's chain
+            # de-duplicates by skipping, lists prefix-relative names and every backend form is sound)
+            rc, out = fut_compose.result()
+            ck.obligation('instance-theorem:chain_walk_lookup_closed', rc == 0,
+                          'c19_chain_walk_lookup_closed, c19_chain_walk_every_entry_spec, c19_chain_walk_with_directory_members (raw_walk_relmode, raw_walk_ops) and c19_chain_walk_any_spelling applied to chain_walk_mode chain_dedup_mode '
+                          'chain_relmode chain_dedup_ops over members built from virtual_cfg / zip_cfg / vpk_cfg' + ('' if rc == 0 else ': ' + out[-400:]))
+            if rc != 0:
+                ck.tie_broken.append('instance theorem chain_walk_lookup_closed does not check at the generated configuration')
+            rc, out = fut_forms.result()
+            if rc != 0:
+                ck.tie_broken.append('instance theorem chain_exists_and_vpk_bytes does not check at the generated configuration')
+            ck.obligation('instance-theorem:chain_exists_and_vpk_bytes', rc == 0,
+                          'c19_chain_exists_agrees_backends at chain_exists_mode, c19_vpk_open_same_bytes at vpk_open_bin_content / '
+                          'vpk_open_str_content, c19_chain_every_form_spec (every lookup form of a chain = the specification) over '
+                          'virtual_cfg / zip_cfg / vpk_cfg, c19_vpk_open_through_reader at vpk_reader, c19_chain_with_directory_members_spec at raw_get_ops, c19_chain_history_spec at chain_add_guard / chain_prio_action / chain_plain_action, c19_raw_walk_lists_stored_names at raw_walk_relmode, c19_property at the whole generated configuration' + ('' if rc == 0 else ': ' + out[-400:]))
         import time as _t
-        t0 = _t.time(); corr_backends(ck, root); t1 = _t.time(); corr_chain(ck, root); t2 = _t.time()
+        # the real backends / chains are run here (main thread, guarded); the model's answers are computed by coqc
+        # processes on their own pool while the canonical-form validation and the search go on
+        cpool = ThreadPoolExecutor(max_workers=4)
+        t0 = _t.time(); fin_backends = corr_backends(ck, root, cpool); t1 = _t.time(); fin_chain = corr_chain(ck, root, cpool); t2 = _t.time()
         ck.extra['stage_seconds'] = {'translate_build': round(_tb - _ta, 1), 'instance_obligations': round(_td - _tc, 1),
-                                     'instance_theorems_wait': round(t0 - _td, 1), 'corr_backends': round(t1 - t0, 1), 'corr_chain': round(t2 - t1, 1)}
+                                     'corr_backends_cases': round(t1 - t0, 1), 'corr_chain_cases': round(t2 - t1, 1)}
     import time as _t
     if ok_t:
-        t3 = _t.time(); canonical_validation(ck, root); ck.extra.setdefault('stage_seconds', {})['canonical_validation'] = round(_t.time() - t3, 1)
+        t3 = _t.time()
+        try:
+            with time_limit(150.0):       # normally 2-5 s: both the real and the rewritten module are executed
+                canonical_validation(ck, root)
+        except ImplHang as e:
+            ck.obligation('translate:canonical-form-is-equivalent', False, f'executing filesys.py / its canonical form did not finish ({e})')
+            ck.tie_broken.append('canonical form of filesys.py: execution did not finish')
+        ck.extra.setdefault('stage_seconds', {})['canonical_validation'] = round(_t.time() - t3, 1)
+    if built:
+        # a decisive code shape is not the sound one: the *search* runs on the escalated budgets (the correspondence
+        # cases were built above on the normal ones: they validate the model, they are not what finds the input)
+        for oname in failed_inst:
+            ck.tie_broken.append(f'instance obligation {oname} does not hold at the generated configuration')
     t3 = _t.time(); search(ck, root); ck.extra.setdefault('stage_seconds', {})['search'] = round(_t.time() - t3, 1)
     if built:
+        _te = time.time()
+        n_ties = len(ck.tie_broken)
+        collect_instance_theorems()
+        ck.extra['stage_seconds']['instance_theorems_wait'] = round(time.time() - _te, 1)
+        _te = time.time()
+        fin_backends()
+        fin_chain()
+        cpool.shutdown()
+        ck.extra['stage_seconds']['correspondence_wait'] = round(time.time() - _te, 1)
+        if len(ck.tie_broken) > n_ties and not ck.violations:
+            # the model and the code disagree and the search (which ran meanwhile on the normal budget) found no failing
+            # input: search again, now on the escalated budgets
+            t3 = _t.time(); search(ck, root); ck.extra['stage_seconds']['search_escalated'] = round(_t.time() - t3, 1)
         _te = time.time()
         fut_thm.result()
         pool.shutdown()
@@ -1615,6 +1896,8 @@ def run(ck: Ck) -> None:
             ck.explain(f'instance:{short}_keys_case_and_slash_insensitive')
         if any_key(f'lookup-{short}-unnormalised', f'walk-{short}-folder-unnormalised'):
             ck.explain(f'instance:{short}_keys_normalise_every_spelling')
+        if any_key(f'walk-{short}-'):
+            ck.explain(f'instance:{short}_walk_normalises_folder_spelling')
     for what, sub in (('get', 'lookup-raw-'), ('exists', 'lookup-raw-'), ('open', 'lookup-raw-'), ('walk', 'walk-raw-')):
         if any_key(sub):
             ck.explain(f'instance:raw_{what}_converts_slashes_only')
@@ -1624,12 +1907,19 @@ def run(ck: Ck) -> None:
         ck.explain('correspondence:backends')
     if 'chain_disagreement' in ck.extra and any_key('chain-'):
         ck.explain('correspondence:chain')
+    if keys:
+        # the conjunction of all recognisers: any concrete violation concerns one of its conjuncts
+        ck.explain('instance:property_hypotheses_hold_for_the_generated_configuration')
+    if any_key('hang-', 'exception-'):
+        # the implementation hangs or throws on a concrete input: that input explains whatever else broke
+        ck.explain('translate:')
+        ck.explain('correspondence:')
     terr = next((o['detail'] for o in ck.obligations if o['name'].startswith('translate:') and not o['ok']), '')
     for subs, pats in ((('FileSystemChain._file_exists', '__contains__'), ('chain-contains-', 'chain-file_exists-')),
                        (('FileSystemChain.open_bin', 'FileSystemChain.open_str'), ('chain-open_bin-', 'chain-open_str-', 'chain-file_open_str-')),
                        (('_get_file:', '__getitem__'), ('chain-get-', 'chain-get_file-')),
                        (('walk_folder_repeat', 'FileSystemChain.walk_folder', 'walk_folder:', '__iter__'), ('chain-walk-', 'chain-iter-')),
-                       (('add_sys',), ('chain-get-not-first-match',)),
+                       (('add_sys',), ('chain-get-not-first-match', 'chain-walk-', 'chain-contains-', 'chain-open_bin-', 'chain-mounted-')),
                        (('VPKFileSystem.open', 'content expression', 'content helper', 'FileInfo.read'), ('content-vpk',))):
         if terr and any(x in terr for x in subs) and any_key(*pats):
             ck.explain('translate:')
@@ -1656,6 +1946,14 @@ def run(ck: Ck) -> None:
         ck.explain('instance:filesystem_getitem_contains_iter_delegate')
     if any_key('chain-walk-name-not-relative-to-prefix'):
         ck.explain('instance:chain_walk_names_relative_to_prefix')
+    if any_key('chain-'):
+        # a member that add_sys drops or misplaces shows in every observable of the chain
+        ck.explain('instance:chain_add_sys_mounts_every_member')
+        ck.explain('instance:chain_add_sys_history_in_priority_order')
+        ck.explain('instance-theorem:chain_exists_and_vpk_bytes')
+    if any_key('walk-raw-', 'content-raw-', 'chain-walk-&raw'):
+        ck.explain('instance:raw_walk_lists_names_relative_to_root')
+        ck.explain('instance-theorem:chain_exists_and_vpk_bytes')
     if any_key('chain-get-not-first-match'):
         ck.explain('instance:chain_get_in_member_order')
         ck.explain('instance:chain_priority_inserts_first')
@@ -1694,18 +1992,22 @@ def replay(data: dict) -> int:
                 if k == data.get('key'):
                     print('REPRODUCED', k, '-', what)
                     break
+        elif r.get('op') == 'backends':
+            files = [(a, b.encode()) for a, b in r['files']]
+            for k, what, _ in guarded('backends', lambda: check_backends(root, files, random.Random(r.get('seed', 0))), r):
+                print('FOUND', k, '-', what)
         elif r.get('op') == 'nonascii':
             files = [(a, b.encode()) for a, b in r['files']]
-            for k, what, _ in check_nonascii(root, files, random.Random(data.get('seed', 0))):
+            for k, what, _ in guarded('nonascii', lambda: check_nonascii(root, files, random.Random(data.get('seed', 0))), r):
                 print('FOUND', k, '-', what)
         elif r.get('op') == 'content':
             sized = [tuple(x) for x in r['files(name,size)']]
-            for k, what, _ in check_content(root, sized, r['placements']):
+            for k, what, _ in guarded('content', lambda: check_content(root, sized, r['placements']), r):
                 print('FOUND', k, '-', what)
         elif r.get('op') == 'chain':
             sets = [[(a, b.encode()) for a, b in s] for s in r['sets']]
             members = [tuple(m) for m in r['members']]
-            for k, what, _ in check_chain(root, sets, members, random.Random(data.get('seed', 0))):
+            for k, what, _ in guarded('chain', lambda: check_chain(root, sets, members, random.Random(data.get('seed', 0))), r):
                 print('FOUND', k, '-', what)
         else:
             print(r)
